@@ -207,6 +207,93 @@ def _bind(helper, call, is_method, recv, caller_locals):
     return prologue, body
 
 
+def _status_test(test, var):
+    ''' predicate over a constant, when <test> tests the local <var> against a constant or for its truth value '''
+    if isinstance(test, ast.UnaryOp) and isinstance(test.op, ast.Not):
+        got = _status_test(test.operand, var)
+        return (lambda c: not got(c)) if got is not None else None
+    if isinstance(test, ast.Name) and test.id == var:
+        return lambda c: bool(c)
+    if isinstance(test, ast.Compare) and len(test.ops) == 1 and isinstance(test.left, ast.Name) and test.left.id == var and isinstance(test.comparators[0], ast.Constant):
+        k = test.comparators[0].value
+        op = test.ops[0]
+
+        def same(c):
+            return (c is k) or (type(c) is type(k) and c == k)
+        if isinstance(op, (ast.Eq, ast.Is)):
+            return same
+        if isinstance(op, (ast.NotEq, ast.IsNot)):
+            return lambda c: not same(c)
+    return None
+
+
+def _assigns(st, var):
+    return any(isinstance(n, ast.Name) and n.id == var and isinstance(n.ctx, ast.Store) for n in ast.walk(st))
+
+
+def _fold_tail(stmts, var, c):
+    ''' the statements with every test of <var> decided for the value c, as far as <var> keeps that value '''
+    out = []
+    for ix, st in enumerate(stmts):
+        if isinstance(st, ast.If):
+            pred = _status_test(st.test, var)
+            if pred is not None:
+                arm = list(st.body if pred(c) else st.orelse)
+                return out + _fold_tail(arm + list(stmts[ix + 1:]), var, c)
+            if _assigns(st, var):
+                return out + list(stmts[ix:])
+            new = ast.If(test=st.test, body=_fold_tail(list(st.body), var, c) or [ast.Pass()], orelse=_fold_tail(list(st.orelse), var, c))
+            ast.copy_location(new, st)
+            out.append(new)
+            continue
+        out.append(st)
+        if isinstance(st, (ast.Return, ast.Raise, ast.Continue, ast.Break)):
+            return out
+        if _assigns(st, var):
+            return out + list(stmts[ix + 1:])
+    return out
+
+
+def _fold_status(new, leaves, var, rest):
+    ''' <new> ends, on every way through, with one of <leaves> (`var = <constant>`); <rest> are the caller's statements that
+    follow.  When they test var, each leaf is continued with a copy of them in which those tests are decided.  None when the
+    pattern is not there. '''
+    if len(leaves) < 2 or not rest:
+        return None
+    vals = []
+    for lf in leaves:
+        if not (isinstance(lf.value, ast.Constant) and isinstance(lf.value.value, (str, bool, int, type(None)))):
+            return None
+        vals.append(lf.value.value)
+    tested = False
+    for st in rest:
+        if isinstance(st, ast.If) and _status_test(st.test, var) is not None:
+            tested = True
+            break
+        if _assigns(st, var):
+            break
+    if not tested:
+        return None
+
+    def holder(stmts, leaf):
+        for st in stmts:
+            if st is leaf:
+                return stmts
+            if isinstance(st, ast.If):
+                got = holder(st.body, leaf) or holder(st.orelse, leaf)
+                if got is not None:
+                    return got
+        return None
+    for lf in leaves:
+        lst = holder(new, lf)
+        if lst is None or lst[-1] is not lf:
+            return None
+    for lf in leaves:
+        lst = holder(new, lf)
+        lst.extend(_fold_tail(_clone(list(rest)), var, lf.value.value))
+    return new
+
+
 def _const_bool(expr):
     if expr is None:
         return False
@@ -236,7 +323,20 @@ def _inline_at(holder_list, ix, helper, call, is_method, recv, caller_locals):
     elif isinstance(st, (ast.Assign, ast.AnnAssign)) and st.value is call and (isinstance(st, ast.AnnAssign) or len(st.targets) == 1):
         tgt = st.target if isinstance(st, ast.AnnAssign) else st.targets[0]
         if isinstance(tgt, (ast.Name, ast.Attribute, ast.Subscript)):
-            new = _rewrite_returns(body, lambda v: [ast.Assign(targets=[_clone(tgt)], value=(v if v is not None else ast.Constant(value=None)), **at(st))])
+            leaves = []
+
+            def assign_leaf(v):
+                node = ast.Assign(targets=[_clone(tgt)], value=(v if v is not None else ast.Constant(value=None)), **at(st))
+                leaves.append(node)
+                return [node]
+            new = _rewrite_returns(body, assign_leaf)
+            if new is not None and isinstance(tgt, ast.Name):
+                # a helper that answers with a status (constants only) which the caller then tests: continue each way out of
+                # the helper with the caller's following statements, the tests of the status decided for that way
+                folded = _fold_status(new, leaves, tgt.id, holder_list[ix + 1:])
+                if folded is not None:
+                    holder_list[ix:] = prologue + folded
+                    return True
     elif isinstance(st, ast.If):
         test = st.test
         neg = False
